@@ -14,6 +14,8 @@ pub enum WStep {
     /// Accept at most n bytes (n >= 1).
     Short(usize),
     Interrupted,
+    /// The next n calls all return `Err(ErrorKind::Interrupted)`.
+    Storm(usize),
     /// `Ok(0)`: `write_all` turns this into a `WriteZero` error.
     Zero,
     Fail(ErrorKind),
@@ -67,6 +69,7 @@ pub struct SinkCounters {
     pub panics: u64,
     pub flushes: u64,
     pub empty_calls: u64,
+    pub vectored_calls: u64,
 }
 
 /// Calls after which the sink stops recording.
@@ -78,6 +81,7 @@ pub struct SinkState {
     pub budget_exceeded: bool,
     pub cfg: SinkCfg,
     step_idx: usize,
+    storm_left: usize,
     pub accepted: Vec<u8>,
     pub log: Vec<(usize, WRes)>,
     pub c: SinkCounters,
@@ -101,6 +105,7 @@ impl SimSink {
             budget_exceeded: false,
             cfg,
             step_idx: 0,
+            storm_left: 0,
             accepted: vec![],
             log: vec![],
             c: SinkCounters::default(),
@@ -138,6 +143,15 @@ impl Write for SimSink {
             WStep::Accept
         };
         st.step_idx += 1;
+        if let WStep::Storm(n) = step {
+            if st.storm_left == 0 {
+                st.storm_left = n.max(1);
+            }
+            st.storm_left -= 1;
+            if st.storm_left > 0 {
+                st.step_idx -= 1;
+            }
+        }
         let (res, ret): (WRes, io::Result<usize>) = match step {
             WStep::Accept => {
                 st.accepted.extend_from_slice(buf);
@@ -154,7 +168,7 @@ impl Write for SimSink {
                 }
                 (WRes::Ok(n), Ok(n))
             }
-            WStep::Interrupted => {
+            WStep::Interrupted | WStep::Storm(_) => {
                 st.c.interrupted += 1;
                 (
                     WRes::Interrupted,
@@ -207,6 +221,14 @@ impl Write for SimSink {
         ret
     }
 
+    /// A real gathering sink (files, sockets): one plan step applies to the concatenation of the
+    /// slices, so that a short count can end inside any of them.
+    fn write_vectored(&mut self, bufs: &[io::IoSlice<'_>]) -> io::Result<usize> {
+        self.0.borrow_mut().c.vectored_calls += 1;
+        let all: Vec<u8> = bufs.iter().flat_map(|b| b.iter().copied()).collect();
+        self.write(&all)
+    }
+
     fn flush(&mut self) -> io::Result<()> {
         self.0.borrow_mut().c.flushes += 1;
         Ok(())
@@ -236,6 +258,12 @@ pub fn gen_sink(rng: &mut Rng, class: u8) -> SinkCfg {
                     }
                 };
                 steps.push(step);
+            }
+            if rng.chance(1, 150) {
+                let n = *rng.pick(&crate::source::STORM_SIZES);
+                let n = if cfg!(miri) { n.min(300) } else { n };
+                let at = rng.below(steps.len() + 1);
+                steps.insert(at, WStep::Storm(n));
             }
             // never end a cycle with Interrupted only
             steps.push(WStep::Short(1 + rng.small(10)));
@@ -285,6 +313,7 @@ pub fn wstep_to_string(s: &WStep) -> String {
         WStep::Accept => "a".into(),
         WStep::Short(n) => format!("s{n}"),
         WStep::Interrupted => "i".into(),
+        WStep::Storm(n) => format!("S{n}"),
         WStep::Zero => "z".into(),
         WStep::Fail(k) => format!("e{}", kind_name(*k)),
         WStep::FailOs(c) => format!("o{c}"),
@@ -299,6 +328,7 @@ pub fn wstep_from_str(s: &str) -> Option<WStep> {
         "a" => WStep::Accept,
         "s" => WStep::Short(t.parse().ok()?),
         "i" => WStep::Interrupted,
+        "S" => WStep::Storm(t.parse().ok()?),
         "z" => WStep::Zero,
         "e" => WStep::Fail(kind_from_name(t)?),
         "o" => WStep::FailOs(t.parse().ok()?),
